@@ -1,4 +1,5 @@
 //! vcheck — model-checking harness for bytebeamio/rumqtt (see /verif/DESIGN.md).
+mod e4_topicgrid;
 mod e5_commitlog;
 mod vcore;
 
@@ -29,6 +30,7 @@ fn main() {
             _ => usage(),
         };
         match args[1].as_str() {
+            "C12" => e4_topicgrid::run(tier),
             "C13" => e5_commitlog::run(tier),
             _ => usage(),
         }
@@ -52,6 +54,7 @@ fn replay(path: &str) -> i32 {
     println!("recorded detail: {}", doc["detail"]);
     let r = &doc["replay"];
     match r["engine"].as_str().unwrap_or("") {
+        "e4_topicgrid" => e4_topicgrid::replay(r),
         "e5_commitlog" => e5_commitlog::replay(r),
         other => vcore::machinery_error(&format!("unknown engine {other}")),
     }
